@@ -194,6 +194,26 @@ fn cmd_check(id: &str, tier: Tier) -> i32 {
             return 2;
         }
     }
+    // thorough tier: coverage-guided campaign (libFuzzer) over the same tape decoder and
+    // the same oracles; a fixed number of runs from a seeded start corpus.
+    if tier == Tier::Thorough && total.violations.is_empty() && std::env::var_os("VERIF_NO_FUZZ").is_none() {
+        if let Some((target, runs)) = fuzz_target_for(id) {
+            match run_fuzz_campaign(id, target, runs, seed, &stages) {
+                Ok((execs, vio)) => {
+                    per_stage.insert(
+                        format!("libfuzzer:{target}"),
+                        serde_json::json!({"runs": execs, "seed": seed, "violations": vio.len()}),
+                    );
+                    total.evaluations += execs;
+                    total.violations.extend(vio);
+                }
+                Err(e) => {
+                    println!("INCONCLUSIVE property={id} fuzz campaign: {e}");
+                    return 2;
+                }
+            }
+        }
+    }
     rules.dedup_by(|a, b| a.split("] ").nth(1) == b.split("] ").nth(1));
     let meta = EvidenceMeta {
         property: id,
@@ -232,6 +252,123 @@ fn cmd_check(id: &str, tier: Tier) -> i32 {
         }
         1
     }
+}
+
+fn fuzz_target_for(id: &str) -> Option<(&'static str, u64)> {
+    match id {
+        "C01" | "C02" | "C03" | "C04" | "C05" | "C07" | "C08" | "C09" | "C14" => Some(("solve_oracles", 20_000)),
+        "C10" | "C11" | "C12" | "C13" => Some(("async_sched", 20_000)),
+        "C18" | "C19" => Some(("containers", 300_000)),
+        "C15" | "C16" | "C20" => Some(("snapshot_cache", 30_000)),
+        _ => None,
+    }
+}
+
+/// Runs the libFuzzer binary for `runs` executions; any artifact is re-evaluated with the
+/// stages of property `id` (shrunk with the tape passes) and returned as a violation.
+fn run_fuzz_campaign(
+    id: &str,
+    target: &str,
+    runs: u64,
+    seed: u64,
+    stages: &[Stage],
+) -> Result<(u64, Vec<ViolationRecord>), String> {
+    use proptest::strategy::{Strategy, ValueTree};
+    let bin = vcore::runner::verif_root().join("target-fuzz/x86_64-unknown-linux-gnu/release").join(target);
+    if !bin.exists() {
+        return Err(format!("{} is not built (./check builds it in the thorough tier)", bin.display()));
+    }
+    let work = vcore::runner::verif_root().join("target-fuzz").join(format!("campaign-{id}-{}", std::process::id()));
+    let corpus = work.join("corpus");
+    let artifacts = work.join("artifacts");
+    let _ = std::fs::remove_dir_all(&work);
+    std::fs::create_dir_all(&corpus).map_err(|e| e.to_string())?;
+    std::fs::create_dir_all(&artifacts).map_err(|e| e.to_string())?;
+    // start corpus: the empty input plus 64 generated tapes (valid, full-length cases)
+    std::fs::write(corpus.join("empty"), b"").map_err(|e| e.to_string())?;
+    let mut runner = proptest::test_runner::TestRunner::new_with_rng(
+        proptest::test_runner::Config::default(),
+        proptest::test_runner::TestRng::from_seed(proptest::test_runner::RngAlgorithm::ChaCha, &{
+            let mut b = [7u8; 32];
+            b[..8].copy_from_slice(&seed.to_le_bytes());
+            b
+        }),
+    );
+    let strat = proptest::collection::vec(proptest::num::u16::ANY, 300..=1500);
+    for i in 0..64 {
+        let tape = strat.new_tree(&mut runner).map_err(|e| e.to_string())?.current();
+        std::fs::write(corpus.join(format!("seed{i}")), vcore::tape::tape_to_bytes(&tape)).map_err(|e| e.to_string())?;
+    }
+    let out = std::process::Command::new(&bin)
+        .arg(format!("-runs={runs}"))
+        .arg(format!("-seed={}", if seed == 0 { 1 } else { seed }))
+        .arg("-len_control=0")
+        .arg("-max_len=3200")
+        .arg("-timeout=120")
+        .arg("-rss_limit_mb=4096")
+        .arg(format!("-artifact_prefix={}/", artifacts.display()))
+        .arg(&corpus)
+        .env("VERIF_ROOT", vcore::runner::verif_root())
+        .output()
+        .map_err(|e| e.to_string())?;
+    let stderr = String::from_utf8_lossy(&out.stderr);
+    let execs = stderr
+        .lines()
+        .rev()
+        .find_map(|l| l.strip_prefix("Done ").and_then(|r| r.split_whitespace().next()).and_then(|n| n.parse::<u64>().ok()))
+        .unwrap_or(0);
+    let mut vio = vec![];
+    if let Ok(rd) = std::fs::read_dir(&artifacts) {
+        for e in rd.filter_map(|e| e.ok()) {
+            let bytes = std::fs::read(e.path()).unwrap_or_default();
+            let tape = vcore::tape::bytes_to_tape(&bytes);
+            for stage in stages {
+                let matches_profile = match stage.profile {
+                    Profile::Release => !cfg!(debug_assertions),
+                    Profile::Debug => cfg!(debug_assertions),
+                };
+                if !matches_profile {
+                    continue;
+                }
+                if let Some(f) = stage.prop.eval(&tape).failure {
+                    if match_known(&load_known(), id, &f.signature).is_some() {
+                        continue;
+                    }
+                    let sig = f.signature.clone();
+                    let fails = |t: &[u16]| stage.prop.eval(t).failure.map(|x| x.signature == sig).unwrap_or(false);
+                    let min = tape_passes(tape.clone(), &fails, stage.prop.shrink_budget());
+                    let case = stage.prop.decode_struct(&min);
+                    vio.push(ViolationRecord {
+                        property: id.to_string(),
+                        stage: stage.prop.stage().to_string(),
+                        signature: f.signature,
+                        detail: format!("found by libFuzzer target {target}: {}", f.detail),
+                        description: stage.prop.describe(&min),
+                        tape: min,
+                        case,
+                        profile: profile_name().to_string(),
+                    });
+                    break;
+                }
+            }
+        }
+    }
+    if !out.status.success() && vio.is_empty() {
+        // the campaign stopped on something that does not reproduce as a violation of THIS
+        // property through the plain evaluation path (e.g. it belongs to another property
+        // served by the same target, or only shows under ASan/debug assertions): say so.
+        let tail: String = stderr.lines().rev().take(12).collect::<Vec<_>>().into_iter().rev().collect::<Vec<_>>().join("\n");
+        let other = stderr.lines().find(|l| l.starts_with("FUZZ-VIOLATION")).unwrap_or("");
+        if other.contains(&format!("property={id} ")) || other.is_empty() {
+            let keep = vcore::runner::verif_root().join("replays").join(format!("{id}-fuzz-artifacts-{}", std::process::id()));
+            let _ = std::fs::create_dir_all(keep.parent().unwrap());
+            let _ = std::fs::rename(&artifacts, &keep);
+            let _ = std::fs::remove_dir_all(&work);
+            return Err(format!("fuzz target {target} stopped ({}) but the artifact does not reproduce through the plain path; artifacts kept in {}\n{tail}", out.status, keep.display()));
+        }
+    }
+    let _ = std::fs::remove_dir_all(&work);
+    Ok((execs, vio))
 }
 
 fn cmd_part(id: &str, stage_name: &str, cases: u64, seed: u64) -> i32 {
